@@ -60,6 +60,16 @@ def run_impl(spec_mod, cases, bdir, tag, timeout):
     return data["results"], data.get("facts", {}), None
 
 
+def _match(spec, c, v):
+    """known-finding matcher of the spec; a matcher that crashes matches nothing (the hit is then reported)"""
+    if not hasattr(spec, "match_finding"):
+        return None
+    try:
+        return spec.match_finding(c, v)
+    except Exception:
+        return None
+
+
 def main(argv=None):
     ap = argparse.ArgumentParser()
     ap.add_argument("pid")
@@ -193,7 +203,13 @@ def main(argv=None):
             c = dict(e["witness"])
             c["kind"] = "witness:" + e["id"]
             cases.append(c)
-    cases += spec.gen_cases(rng, tier)
+    try:
+        cases += spec.gen_cases(rng, tier)
+    except Exception as e:  # the generator itself consults the implementation in some specs: fail closed
+        import traceback
+
+        broken.append({"phase": "correspond", "name": "case-generator", "detail": traceback.format_exc()[-3000:]})
+        log("correspond: the case generator failed (%s); continuing with the corpus and witnesses" % type(e).__name__)
     for c in cases:
         c["in"] = norm_tree(c["in"])
     timeout_impl = 3000 if tier == "thorough" else 900
@@ -218,7 +234,12 @@ def main(argv=None):
             if c.get("model", True):
                 if hasattr(spec, "model_pair"):
                     # trace acceptance: the model input is built from what the implementation did
-                    mi, mo = spec.model_pair(c, r["obs"])
+                    try:
+                        mi, mo = spec.model_pair(c, r["obs"])
+                    except Exception as e:  # an observation the harness cannot turn into a model input
+                        broken.append({"phase": "correspond", "name": "model-pair",
+                                       "detail": {"case": c, "error": "%s: %s" % (type(e).__name__, str(e)[:500])}})
+                        continue
                     c["in"] = norm_tree(mi)
                     pairs.append((c["in"], norm_tree(mo)))
                 else:
@@ -253,7 +274,7 @@ def main(argv=None):
         for c, r in zip(cases, results):
             v = r.get("viol")
             if v:
-                fid = spec.match_finding(c, v) if hasattr(spec, "match_finding") else None
+                fid = _match(spec, c, v)
                 ent = next((e for e in findings if e["id"] == fid), None) if fid else None
                 if ent is not None and ent.get("status") == "known":
                     known_hits.setdefault(fid, (ent, c, v))
@@ -272,7 +293,10 @@ def main(argv=None):
         rounds = 12 if tier == "thorough" else 4
         for rnd in range(rounds):
             srng = random.Random(seed * 7919 + 104729 * (rnd + 1))
-            scs = (spec.search_cases(srng, tier) if hasattr(spec, "search_cases") else spec.gen_cases(srng, tier))
+            try:
+                scs = (spec.search_cases(srng, tier) if hasattr(spec, "search_cases") else spec.gen_cases(srng, tier))
+            except Exception:
+                continue
             for c in scs:
                 c["in"] = norm_tree(c["in"])
             res, _, err2 = run_impl(spec_mod, scs, bdir, "search%d" % rnd, timeout_impl)
@@ -282,7 +306,7 @@ def main(argv=None):
             for c, r in zip(scs, res):
                 v = r.get("viol")
                 if v:
-                    fid = spec.match_finding(c, v) if hasattr(spec, "match_finding") else None
+                    fid = _match(spec, c, v)
                     ent = next((e for e in findings if e["id"] == fid), None) if fid else None
                     if not (ent is not None and ent.get("status") == "known"):
                         hits.append((c, v))
